@@ -16,7 +16,8 @@ RULE = ("K users x N antennas per user (quick K 2..4, N 1..3; thorough K 2..6, "
         "(class and module-level API); part 'extint': WhiteningBD and "
         "EnhancedBD (metric None/naive/fixed/capacity/effective_throughput, "
         "num_streams 1..N with the configuration dictionary optionally "
-        "re-used by the caller afterwards, PSK/QAM/BPSK/QPSK modulators) on a "
+        "re-used by the caller afterwards, optionally after the same object "
+        "was configured for another metric, PSK/QAM/BPSK/QPSK modulators) on a "
         "MultiUserChannelMatrixExtInt with external sources of total rank "
         "1..3 and power pe 1e-3..1e3; part 'grid': every (K, N) layout x "
         "method/metric x stream count x external-source layout once. "
